@@ -89,6 +89,29 @@ inline const std::vector<Bytes>& sourceSequences()
     return seqs;
 }
 
+// CRC-32 (IEEE 802.3, reflected) - for content that carries a checksum of itself, as captured Ethernet frames do
+inline uint32_t crc32Of(const uint8_t* p, size_t n)
+{
+    uint32_t c = 0xFFFFFFFFu;
+    for (size_t i = 0; i < n; ++i)
+    {
+        c ^= p[i];
+        for (int k = 0; k < 8; ++k)
+            c = (c >> 1) ^ (0xEDB88320u & (0u - (c & 1u)));
+    }
+    return ~c;
+}
+// one Ethernet data region in eight ends with the frame check sequence of the bytes before it (little-endian, as on the
+// wire): properties of content that a generator does not hit bit by bit (checksums) have to be put there on purpose
+inline void applyFcs(uint8_t* data, size_t n, uint32_t id)
+{
+    if (n < 18 || (mix64(id * 0x9E3779B97F4A7C15ULL + 777) & 7) != 0)
+        return;
+    const uint32_t c = crc32Of(data, n - 4);
+    for (int i = 0; i < 4; ++i)
+        data[n - 4 + static_cast<size_t>(i)] = static_cast<uint8_t>(c >> (8 * i));
+}
+
 inline void applyDictionary(uint8_t* data, size_t n, uint32_t id)
 {
     static const uint8_t d0[] = {0x55, 0x55, 0x55, 0x55, 0x55, 0x55, 0x55, 0xD5};
@@ -153,6 +176,8 @@ inline Bytes makePayload(int kind, size_t len, uint32_t id)
         }
         if (dataOff < len)
             applyDictionary(b.data() + dataOff, len - dataOff, id);
+        if (kind == wire::K_ETH && dataOff < len)
+            applyFcs(b.data() + dataOff, len - dataOff, id);
     }
     switch (kind)
     {
